@@ -29,11 +29,11 @@ fn round_ratio(got: &[f64], want: &[f64], hf: &[f64]) -> f64 {
 }
 
 pub fn run(ctx: &Ctx) -> (Report, Meta) {
-    let k_round = 64.0;
+    let k_round = 256.0;
     let meta = Meta::new(
         "(a) low-level builders with a recording SolOut on bounded and discontinuous problems (forcing rejections), 6 methods, both directions, tolerances, max_step clamps: for every accepted step the interpolant handed to the callback is evaluated at both step ends and compared with the previous and the new state; steps following a rejection and BDF order changes are counted; (b) solve_ivp with dense_output: sol(t_i) vs stored samples, sol/sol_many succeed on the covered span (stored times, midpoints, boundaries +-1 ulp, span ends, random interior) and return OutOfRange clearly outside, sol_span contains x0 and the last reported time, NotEnabled when disabled, zero-length run, runs ended by terminal events and step budgets; non-trivial = run with >= 3 segments (distinct by scenario hash)",
     )
-    .assume("rounding bound for endpoint identities: 64 eps (|y| + (|h|+|t|) |f|) componentwise (the |t||f| term is the effect of one ulp of the evaluation time) (calibrated: worst observed on the unchanged tree is recorded in worst_observed)")
+    .assume("rounding bound for endpoint identities: 256 eps (|y| + (|h|+|t|) |f|) componentwise (the |t||f| term is the effect of one ulp of the evaluation time) (calibrated: worst observed on the unchanged tree is recorded in worst_observed)")
     .thresholds(json!({"endpoint_rounding_factor": k_round, "clearly_outside": "1e-9*span + 1e-9"}))
     .floor("callback_interpolants_checked", 5000)
     .floor("steps_after_rejection_checked", 100)
